@@ -65,7 +65,7 @@ func (c01) Budget(tier string) runner.Budget {
 
 func (c01) Describe() runner.Description {
 	return runner.Description{
-		Rule: "each plan: a fixed funded parent state (2 setup blocks: funding transfers, 3 contracts, 0-2 miners) plus one seeded test block of 1..25 transactions of every executor type (operator transfers with 1-4 JSON targets incl. the source itself, the same address in different letter case, duplicate keys, zero/fractional/>18-decimal/negative/huge/malformed amounts, amounts exhausting the balance part-way; miner apply/add-stake/refund/change-account valid and invalid; contract create/call of programs that SSTORE, LOG, move value, REVERT, self-destruct, burn all gas; repeated and out-of-order nonces). The block is executed by R=4 (quick) / 8 (thorough) replica incarnations differing in seeded map-iteration order, wall clock (epoch, per-call drift), cold boot from the parent's disk image vs warm node with seeded first-touch reads or an executed-and-discarded block; state root, evicted list, executed list and every receipt (status, result text, logs, gas, contract address) must be byte-identical. Then a proposer incarnation casts the block through the pool and a differently seeded incarnation must accept it. distinct_nontrivial = distinct (tx-kind multiset, outcome vector) pairs of blocks with >=2 transactions or a multi-target transfer.",
+		Rule: "each plan: a fixed funded parent state (2 setup blocks: funding transfers, 3 contracts, 0-2 miners) plus one seeded test block of 1..25 transactions of every executor type (operator transfers with 1-4 JSON targets incl. the source itself, the same address in different letter case, duplicate keys, zero/fractional/>18-decimal/negative/huge/malformed amounts, amounts exhausting the balance part-way; miner apply/add-stake/refund/change-account valid and invalid; contract create/call (native type and the wrapped-Ethereum type 188 form, nonce in sequence / too low / too high) of programs that SSTORE, LOG, move value, REVERT, self-destruct, burn all gas; repeated and out-of-order nonces). The block is executed by R=4 (quick) / 8 (thorough) replica incarnations differing in seeded map-iteration order, wall clock (epoch, per-call drift), cold boot from the parent's disk image vs warm node with seeded first-touch reads or an executed-and-discarded block; state root, evicted list, executed list and every receipt (status, result text, logs, gas, contract address) must be byte-identical. Then a proposer incarnation casts the block through the pool and a differently seeded incarnation must accept it. distinct_nontrivial = distinct (tx-kind multiset, outcome vector) pairs of blocks with >=2 transactions or a multi-target transfer.",
 		Assumptions: []string{"replicas are sequential incarnations in one process (singletons): process-local caches are reset the way a fresh process starts", "fork configuration fixed per plan (latestsync or devlike)"},
 		Real:        []string{"core/vmexecutor + all executors", "service (ChangeAssets, miner/refund/reward managers, tx pool)", "storage/account + trie", "vm (EVM)", "core cast/verify/add path"},
 		Stub:        []string{"ConsensusHelper", "network", "NTP clock (simulated)"},
@@ -131,11 +131,16 @@ func c01GenTx(r *simrt.Rand, i int, nonces map[int]uint64) node.TxSpec {
 		s.Arg = uint64(r.Intn(5))
 		s.Value = []string{"0", "0", "1", "0.5"}[r.Intn(4)]
 		s.Gas = []uint64{0, 60000000, 1700000, 6000000}[r.Intn(4)]
+		s.Eth = r.Chance(0.4)
 	default:
 		s.K = "call"
 		s.To = fmt.Sprintf("#%d", r.Intn(5))
 		s.Value = []string{"0", "1", "0.25", "100000000000"}[r.Intn(4)]
 		s.Gas = []uint64{0, 700000, 6000000}[r.Intn(3)]
+		s.Eth = r.Chance(0.4)
+	}
+	if s.Eth && r.Chance(0.2) {
+		s.NDelta = []int{-1, 1, 2}[r.Intn(3)] // nonce too low / too high for the wrapped form
 	}
 	// nonces: mostly in sequence per sender, sometimes repeated or ahead
 	switch r.Intn(10) {
@@ -188,7 +193,7 @@ func (c01) Gen(seed uint64, tier string) json.RawMessage {
 }
 
 // c01Setup builds the parent state and returns its disk image, head and contracts.
-func c01Setup(p *c01Plan) (*simdisk.Disk, *types.BlockHeader, []string) {
+func c01Setup(p *c01Plan) (*simdisk.Disk, *types.BlockHeader, []string, [8]uint64) {
 	simmap.Seed = 0
 	utility.SimClock = nil
 	node.SetTime(node.EpochTime)
@@ -235,7 +240,13 @@ func c01Setup(p *c01Plan) (*simdisk.Disk, *types.BlockHeader, []string) {
 		txs2 = append(txs2, node.TxSpec{K: "apply", From: 4 + m, Miner: m, MType: byte(m), Stake: st, Salt: fmt.Sprintf("setupm%d", m)}.Build())
 	}
 	must(c01Cast(n, node.BlockSpec{QN: 1, PV: 1, TimeMs: 2000, Txs: txs2}, 2))
-	return disk.Clone(), n.Chain.TopBlock(), contracts
+	var nonces [8]uint64
+	if state, err := middleware.AccountDBManagerInstance.GetAccountDBByHash(n.Chain.TopBlock().StateTree); err == nil {
+		for i := range nonces {
+			nonces[i] = state.GetNonce(common.HexToAddress(node.Account(i)))
+		}
+	}
+	return disk.Clone(), n.Chain.TopBlock(), contracts, nonces
 }
 
 // c01Cast casts through the exported API. With asynchronous casting active the call runs
@@ -260,6 +271,8 @@ type c01Outcome struct {
 	executed []string
 	receipts []string // json per receipt
 	kinds    []int32
+	ethOK    int
+	ethFail  int
 }
 
 func c01Exec(n *node.Node, parent *types.BlockHeader, hdr types.BlockHeader, txs []*types.Transaction, rep c01Replica, seed uint64) c01Outcome {
@@ -314,7 +327,14 @@ func c01Exec(n *node.Node, parent *types.BlockHeader, hdr types.BlockHeader, txs
 		o.executed = append(o.executed, t.Hash.Hex())
 		o.kinds = append(o.kinds, t.Type)
 	}
-	for _, rc := range receipts {
+	for i, rc := range receipts {
+		if i < len(exec) && exec[i].Type == types.TransactionTypeETHTX {
+			if rc.Status == types.ReceiptStatusSuccessful {
+				o.ethOK++
+			} else {
+				o.ethFail++
+			}
+		}
 		b, _ := json.Marshal(rc)
 		// Msg (the executor's result text) is not part of the JSON form: compare it as well
 		o.receipts = append(o.receipts, string(b)+" msg="+rc.Msg)
@@ -380,7 +400,8 @@ func (c01) Exec(raw json.RawMessage, st *simrt.Stats, log *simrt.Log) *simrt.Vio
 		panic(runner.InfraError{Msg: "bad plan: " + err.Error()})
 	}
 	defer func() { simmap.Seed = 0; utility.SimClock = nil }()
-	image, parent, contracts := c01Setup(&p)
+	image, parent, contracts, baseNonce := c01Setup(&p)
+	ethSeq := map[int]uint64{} // wrapped-form transactions placed so far per sender (each bumps the nonce when it runs)
 	forks := node.Forks(p.Forks)
 	var txs []*types.Transaction
 	multi := false
@@ -403,6 +424,18 @@ func (c01) Exec(raw json.RawMessage, st *simrt.Stats, log *simrt.Log) *simrt.Vio
 			multi = true
 		}
 		kinds[s.K]++
+		f := ((s.From % 8) + 8) % 8
+		if s.Eth {
+			want := int64(baseNonce[f]+ethSeq[f]) + int64(s.NDelta)
+			if want < 0 {
+				want = 0
+			}
+			s.Nonce = uint64(want)
+			kinds["eth"+s.K]++
+		}
+		if (s.K == "create" || s.K == "call") && s.NDelta == 0 {
+			ethSeq[f]++ // a contract transaction that runs bumps the sender's nonce
+		}
 		txs = append(txs, s.Build())
 	}
 	// the list the executor is given: in the node's own total order
@@ -444,6 +477,8 @@ func (c01) Exec(raw json.RawMessage, st *simrt.Stats, log *simrt.Log) *simrt.Vio
 		log.Add("replica %d map=%x warm=%d clock=%d step=%d root=%s receipts=%d evicted=%d", i, rep.MapSeed, rep.Warm, rep.ClockS, rep.StepMs, o.root[:10], len(o.receipts), len(o.evicted))
 		if i == 0 {
 			first = o
+			st.ProbeN("wrapped_eth_tx_ok", int64(o.ethOK))
+			st.ProbeN("wrapped_eth_tx_failed", int64(o.ethFail))
 			continue
 		}
 		if where, detail := c01Diff(first, o); where != "" {
